@@ -368,6 +368,31 @@ pub fn c09(r: &mut Rng, sz: &Sizes, out: &mut Vec<String>) {
     }
 }
 
+pub fn c11(r: &mut Rng, sz: &Sizes, out: &mut Vec<String>) {
+    let mut p = small_shapes();
+    p.extend(medium_shapes());
+    for i in 0..sz.shapes * 2 {
+        p.push(rand_shape(r, 1 + i % 4));
+    }
+    // a few shapes whose keys need quoting / escaping in JSON
+    for k in ["key space", "q\"uote", "back\\slash", "tab\tkey", "new\nline", "\u{1}ctl", "\u{e9}", ""] {
+        let mut c = std::collections::BTreeMap::new();
+        c.insert(k.to_string(), JsonShape::Number { optional: false });
+        p.push(JsonShape::Object { content: c, optional: false });
+    }
+    for s in &p {
+        out.push(format!("display\t{}", sx(s)));
+        out.push(format!("serde\t{}", sx(s)));
+        out.push(format!("serdert\t{}\t!ok {}", sx(s), sx(s)));
+        out.push(format!("p_c11\t{}\t!ok", sx(s)));
+    }
+    for _ in 0..sz.pairs {
+        let a = r.pick(&p).clone();
+        let b = near(r, &a, &p);
+        out.push(format!("cmp\t{}\t{}", sx(&a), sx(&b)));
+    }
+}
+
 pub fn generate(prop: &str, tier: &str, seed: u64) -> Vec<String> {
     let mut r = Rng(seed ^ 0x5eed_0000 ^ (prop.bytes().fold(0u64, |a, b| a * 131 + b as u64)));
     let sz = sizes(tier);
@@ -380,6 +405,7 @@ pub fn generate(prop: &str, tier: &str, seed: u64) -> Vec<String> {
         "keeps" => keeps(&mut r, &sz, &mut out),
         "C06" => c06(&mut r, &sz, &mut out),
         "C09" => c09(&mut r, &sz, &mut out),
+        "C11" => c11(&mut r, &sz, &mut out),
         "C08" => c08(&mut r, &sz, &mut out),
         "C17" => c17(&mut r, &sz, &mut out),
         "core" => core(&mut r, &sz, &mut out),
